@@ -170,7 +170,9 @@ exec_python_parser.add_argument(
 )
 exec_python_parser.add_argument(
     'pyfile',
-    type=argparse.FileType('r', encoding='utf-8'),
+    # binary: compile() then honours a PEP 263 coding declaration (and
+    # defaults to UTF-8), as Python does when it runs the script itself
+    type=argparse.FileType('rb'),
     help='Path to the Python script',
 )
 exec_python_parser.add_argument(
